@@ -230,6 +230,23 @@ theorem notifications_history (nr : Bool) (ops : List SysOp) (id : Nat) :
     ((Sys.init.run nr ops).obs).count id = callsSpec [] (project nr Sys.init ops) id :=
   notifications_over_history nr ops id
 
+/-- histories may contain observers that panic in their callback (`SysOp.reloadPanic`: reload
+    recovers the panic; only the targets visited before it — Go's map order decides which — were
+    called for that change): `notifications_history` covers them, and a failing observer changes
+    neither the registry nor anybody's future — the next complete round calls every registered
+    target exactly once -/
+theorem panicking_observer_does_not_silence (o : Obs) (visited : List Nat) (id : Nat) (h : o.WF)
+    (hr : o.registered id = true) :
+    ((o.runPartial visited).run).count id = (o.runPartial visited).count id + 1 ∧
+    (o.runPartial visited).reg = o.reg :=
+  runPartial_then_run o visited id h hr
+
+example :
+    let f1 : FileSt := ⟨1700000000000000000, ['k', '=', '2', '\n']⟩
+    let f2 : FileSt := ⟨1700000001000000000, ['k', '=', '3', '\n']⟩
+    (Sys.init.run true [.addObs ['a'] 1, .addObs ['b'] 2, .edit f1, .reloadPanic [2], .edit f2, .reload]).obs.counts
+      = [(1, 1), (2, 2)] := by decide
+
 theorem reload_leaves_alone (c : Cfg) (file : Option FileSt)
     (h1 : (reload verFull c file).2 ≠ .loaded) (h2 : (reload verFull c file).2 ≠ .reset) :
     (reload verFull c file).1.m = c.m ∧ (reload verFull c file).1.notified = c.notified :=
@@ -322,6 +339,35 @@ theorem finding_reset_keeps_stamp :
     let c := (reload verFull Cfg.init (some f)).1
     (reload verFull (resetKeepingStamp c) (some f)).2 = .same ∧
     lookup (reload verFull (resetKeepingStamp c) (some f)).1.m ['k'] = none := by decide
+
+/-- whatever reload finds in the file — also an unparsable intermediate version (half-written file,
+    bad escape, malformed `${`) — is remembered by its stamp — so when the file then disappears the
+    configuration goes back to the defaults (and, with the observers told about resets, notifies) -/
+theorem gone_after_failed_parse (c : Cfg) (f : FileSt) (h1 : f.mtimeNs ≠ -1) (h0 : f.mtimeNs ≠ 0) :
+    let c1 := (reload verFull c (some f)).1
+    c1.last = verFull f ∧ (reloadN true verFull c1 none).2 = .reset ∧
+    (reloadN true verFull c1 none).1.notified = c1.notified + 1 := by
+  intro c1
+  have hl : c1.last = verFull f := reload_last verFull c f
+  refine ⟨hl, ?_, ?_⟩
+  · simp only [reloadN, reload, hl, verFull]
+    simp [h1, h0]
+  · simp only [reloadN, reload, hl, verFull]
+    simp [h1, h0]
+
+example :
+    let f1 : FileSt := ⟨1700000000000000000, ['k', '=', '2', '\n']⟩
+    let bad : FileSt := ⟨1700000001000000000, ['=', 'v', '\n']⟩
+    let s := Sys.init.run true [.addObs ['a'] 1, .edit f1, .reload, .edit bad, .reload, .delete, .reload]
+    lookup s.cfg.m ['k'] = none ∧ lookup s.cfg.m "enabled".toList = some "true".toList ∧ s.obs.counts = [(1, 2)] := by decide
+
+/-- … whereas "forgetting" the stamp after a failed parse by writing the never-loaded sentinel −1
+    makes the later disappearance of the file invisible: no reset, no notification -/
+theorem finding_forgotten_stamp_is_never_loaded :
+    let f1 : FileSt := ⟨1700000000000000000, ['k', '=', '2', '\n']⟩
+    let c := (reload verFull Cfg.init (some f1)).1
+    (reloadN true verFull { c with last := (-1, c.last.2) } none).2 = .nofile ∧
+    lookup (reloadN true verFull { c with last := (-1, c.last.2) } none).1.m ['k'] = some ['2'] := by decide
 
 /-- D37: the unchanged code compares whole seconds — the same history leaves the first value -/
 theorem finding_D37 :
@@ -616,6 +662,14 @@ theorem finding_write_error_lost (old new : Str) (n : Nat) :
   storeProtocol_unchecked old new n
 
 example : (storeProtocol true ⟨false, some 2, false, false, false⟩ ['o', 'l', 'd'] ['n', 'e', 'w']) = (⟨some ['o', 'l', 'd'], none⟩, true) := by decide
+
+/-- **Crash, then continue**: whatever an interrupted earlier write left in the temporary file
+    (`leftover`, any content, any length), the next write-back starts from a fresh temporary file:
+    old-or-new at every stop point and the complete new content at the end -/
+theorem crash_then_continue (old new : Str) (leftover : Option Str) :
+    (∀ s ∈ crashStates new atomicSeq ⟨some old, leftover⟩, visibleOK old new s) ∧
+    (atomicSeq.foldl (execKind new) ⟨some old, leftover⟩).target = some new :=
+  ⟨atomicSeq_visible old new leftover, atomicSeq_final old new leftover⟩
 
 /-- D39 (first half): open with O_TRUNC, then write — there is a stop point at which the file
     is empty, and one for every proper prefix of the new content -/
